@@ -726,6 +726,25 @@ func checkStored(c *core.Check, ex *extractor, key, kw string, pos token.Pos) {
 		return
 	}
 	for _, rhs := range ex.stores {
+		// a value validated as a boolean means what its canonical spelling means (1, t, T are true): it is stored as
+		// strconv.FormatBool of the parsed value, because consumers compare with "true" (Is3D, IsMultiple, font choice)
+		if ex.d.parse == "strconv.ParseBool" {
+			ok := false
+			if call, isCall := ast.Unparen(rhs).(*ast.CallExpr); isCall && core.IsCallTo(ex.info, call, "strconv.FormatBool") && len(call.Args) == 1 {
+				if o := core.ObjOf(ex.info, call.Args[0]); o != nil {
+					for _, d := range defsOf(ex.fi, o) {
+						if pc, isP := ast.Unparen(d.Rhs).(*ast.CallExpr); isP && d.Multi && d.Index == 0 && core.IsCallTo(ex.info, pc, "strconv.ParseBool") && len(pc.Args) == 1 {
+							if in, _ := ex.inputOf(pc.Args[0]); in == ex.input {
+								ok = true
+							}
+						}
+					}
+				}
+			}
+			c.Decide(ok, "C16.stored", key+":store", rhs.Pos(), "stores the canonical spelling of the parsed boolean",
+				fmt.Sprintf("stores %s, but the attribute is validated with strconv.ParseBool, which accepts 1, t, T, TRUE …: consumers that compare the stored text with \"true\" (layout's Is3D/IsMultiple, the font choice for bold/italic) then disagree with the exporter, which parses it", exprStr(rhs)))
+			continue
+		}
 		s, lowered := ex.inputOf(rhs)
 		// a value that was validated in lower case means what its lower-case spelling means: it is stored that way
 		// (every consumer compares exactly); everything else is stored as written
